@@ -331,3 +331,8 @@ Proof.
     eexists. eexists. split; [exact Ec|]. split; [subst trend; rewrite zip_sub_nth by lia; rewrite Ec; reflexivity|].
     replace (h + (t - h))%nat with t by lia. rewrite !Qred_correct. split; ring.
 Qed.
+
+Lemma ecdf_full_spec obs x :
+  ecdf obs x == natQ (length (filter (fun o => Qle_bool o x) obs)) / natQ (length obs) /\
+  forall o, In o (filter (fun o => Qle_bool o x) obs) <-> In o obs /\ o <= x.
+Proof. exact (conj (ecdf_spec obs x) (ecdf_count obs x)). Qed.
